@@ -469,9 +469,9 @@ theorem validateStream_idem (c : Cfg) (outcome : Bytes → BodyOutcome) (r : Req
       | accept => simp only [ho1] at ho; cases ho
       | rewriteFails => simp only [ho1] at ho; cases ho
 
-/-- … and its verdict is the first one's when the rewritten body is accepted as it is -/
+/-- … and its verdict is the first one's when the rewritten body is accepted (as it is, or re-encoded to the same bytes) -/
 theorem validateStream_idem_verdict (c : Cfg) (outcome : Bytes → BodyOutcome) (r : Req) (data : Bytes) (h : Coherent r data)
-    (H : ∀ nd, outcome data = .rewrite nd → nd ≠ [] ∧ outcome nd = .accept) :
+    (H : ∀ nd, outcome data = .rewrite nd → nd ≠ [] ∧ (outcome nd = .accept ∨ outcome nd = .rewrite nd)) :
     (validateStream c outcome (validateStream c outcome r).1).2 = (validateStream c outcome r).2 := by
   obtain ⟨hc, _, _⟩ := secPhase_coherent c.hasAuthFunc r c.reqs data h
   have hres := secPhase_result c.hasAuthFunc r c.reqs data h
@@ -501,7 +501,7 @@ theorem validateStream_idem_verdict (c : Cfg) (outcome : Bytes → BodyOutcome) 
           simp only
           cases nd0 with
           | nil => exact absurd rfl hne
-          | cons y ys => simp only [hacc]
+          | cons y ys => rcases hacc with hacc | hacc <;> simp only [hacc]
         | reject => simp only [ho1]
         | accept => simp only [ho1]
         | rewriteFails => simp only [ho1]
